@@ -114,11 +114,22 @@ func extractC15(c *Ctx) {
 	src = ""
 	if fd := c.FuncDecl(file, "Resolver", "ResolveNow"); fd != nil {
 		src = c.Pos(fd)
-		if len(fd.Body.List) == 1 && squash(c.Src(fd.Body.List[0])) == "(*r.notifyResolveNow.Load())()" {
-			rc = append(rc, "ResolveNow:call(load:notifyResolveNow)")
-		} else {
-			rc = append(rc, "?:ResolveNow")
+		var parts []string
+		for _, st := range fd.Body.List {
+			switch s := squash(c.Src(st)); {
+			case s == "(*r.notifyResolveNow.Load())()":
+				parts = append(parts, "load:notifyResolveNow", "call")
+			case s == "notify:=r.notifyResolveNow.Load()":
+				parts = append(parts, "load:notifyResolveNow")
+			case strings.HasPrefix(s, "verifhook.Point("):
+				// yield point, no-op without the tag
+			case s == "(*notify)()":
+				parts = append(parts, "call")
+			default:
+				parts = append(parts, "?:"+s)
+			}
 		}
+		rc = append(rc, "ResolveNow:"+strings.Join(parts, ","))
 	}
 	if fd := c.FuncDecl(file, "Resolver", "Close"); fd != nil {
 		if len(fd.Body.List) == 1 && squash(c.Src(fd.Body.List[0])) == "r.done<-struct{}{}" {
